@@ -4,10 +4,12 @@
 EXTENDS Batcher
 
 I(id, ctx, w) == [id |-> id, ctx |-> ctx, w |-> w]
-\* r1: 3 items, r2: 1 item, r3: 5 items with one heavy item (weight 4), r4: empty, r5: heavy item first
+\* r1: 3 items, r2: 1 item, r3: 5 items with one heavy item (weight 4), r4: empty, r5: heavy item first,
+\* r6: heavy item last (with max 3 in bytes it is sent alone and nothing is left: the remainder without items)
 MCItems == ("r1" :> <<I(11, "a", 1), I(12, "a", 1), I(13, "b", 1)>>) @@
            ("r2" :> <<I(21, "c", 1)>>) @@
            ("r3" :> <<I(31, "d", 1), I(32, "d", 4), I(33, "e", 1), I(34, "e", 1), I(35, "e", 1)>>) @@
            ("r4" :> <<>>) @@
-           ("r5" :> <<I(51, "f", 3), I(52, "f", 1)>>)
+           ("r5" :> <<I(51, "f", 3), I(52, "f", 1)>>) @@
+           ("r6" :> <<I(61, "g", 1), I(62, "g", 4)>>)
 =============================================================================
